@@ -2,6 +2,7 @@
 model (K = Q), element-wise reconstruction bound on the implementation, exactness of the JAX routine at
 nchol = rank, and jvp vs finite differences / identity."""
 import json
+import os
 import math
 import random
 from fractions import Fraction
@@ -248,6 +249,40 @@ def run(ctx):
                 if e > err + 1e-12:
                     spec_fail.append(("pyscf_interface.generate_integrals", "Cholesky vectors produced for a requested threshold reproduce the ERI matrix to within that threshold",
                                       {"atom": atom, "basis": basis, "chol_cut": err, "got_error": float(e), "nvec": int(Lg.shape[0])}))
+        # the user-supplied-integrals route of prep_afqmc: the same two-electron integrals handed over in each layout pyscf produces
+        # (4-index, 4-fold packed matrix, 8-fold packed vector, full norb^2 x norb^2 matrix) must be written as Cholesky vectors
+        # that reproduce them to within chol_cut
+        import contextlib, io, tempfile
+        import molecules as M
+        import systems
+        from pyscf import ao2mo
+        for nsite, ne in ((3, (2, 1)), (4, (2, 2))):
+            rl = random.Random(rng.randrange(1 << 30))
+            mol, mf, ints = M.lattice_mf(rl, nsite, ne, 2.0)
+            Bs = [systems.sym(systems.dyadic(rl, (nsite, nsite), 3, 0.5)) for _ in range(nsite + 1)]
+            eri4 = sum(np.einsum("ij,kl->ijkl", b, b) for b in Bs)        # 8-fold symmetric, positive semi-definite, not diagonal
+            full = eri4.reshape(nsite * nsite, nsite * nsite)
+            layouts = {"4-index": eri4, "4-fold packed matrix": ao2mo.restore(4, eri4, nsite), "8-fold packed vector": ao2mo.restore(8, eri4, nsite),
+                       "full norb^2 x norb^2 matrix": full}
+            for name, h2 in layouts.items():
+                cwd = os.getcwd()
+                try:
+                    with tempfile.TemporaryDirectory() as td:
+                        os.chdir(td)
+                        with contextlib.redirect_stdout(io.StringIO()):
+                            pi.prep_afqmc(mf, basis_coeff=np.eye(nsite), chol_cut=1e-8, integrals={"h0": 0.0, "h1": np.array(ints["h1"]), "h2": np.array(h2)})
+                        _, _, _, chol, _ = M.read_fcidump("FCIDUMP_chol")
+                    os.chdir(cwd)
+                    Lw = chol.reshape(-1, nsite * nsite)
+                    e = float(np.abs(Lw.T @ Lw - full).max())
+                    mol_cases += 1
+                    if not e <= 1e-8 + 1e-12:
+                        spec_fail.append(("pyscf_interface.prep_afqmc (user-supplied integrals)", "Cholesky vectors written for supplied two-electron integrals reproduce them to within chol_cut",
+                                          {"norb": nsite, "layout": name, "chol_cut": 1e-8, "got_error": e, "nvec": int(Lw.shape[0])}))
+                except Exception as ex:
+                    os.chdir(cwd)
+                    spec_fail.append(("pyscf_interface.prep_afqmc (user-supplied integrals)", "preparation from supplied integrals runs",
+                                      {"norb": nsite, "layout": name, "error": repr(ex)[:300]}))
     except ImportError:
         ctx.notes.append("pyscf not importable: chunked_cholesky not exercised")
 
